@@ -155,6 +155,7 @@ def byLabel (w : W) (e : Ev) : List (List WA) :=
   | "sd" => [[hChk h fun x => x.stoppedCh]]
   | "sdnil" => [[hChk h fun x => !x.stopSet]]
   | "rng" => [[.chk fun w => w.st.running]]
+  | "nrng" => [[.chk fun w => !w.st.running]]
   | "cx" => [[.m .cancelExt]]
   | "wce" => [[.chk fun w => w.st.closeErr]]
   | "qs" =>
